@@ -186,6 +186,22 @@ def plan_c08(K, ctx):
 
     K.parallel([(lambda f=f: K.pipeline(ctx, f, "c08", "MC_C08", cfg, "J_C08", nontrivial, workers=5,
                                         shards=5 if ctx.tier == "thorough" else 2)) for f in K.FORMATS])
+    # M1 event traces (hooks): the same input sequences through the instrumented ParseState, validated event by event
+    def trace(fmt):
+        def run():
+            src = os.path.join(ctx.rundir, f"c08_{fmt}.cmds.ndjson")
+            cmds = os.path.join(ctx.rundir, f"c08trace_{fmt}.cmds.ndjson")
+            obs = os.path.join(ctx.rundir, f"c08trace_{fmt}.obs.ndjson")
+            with open(cmds, "w", encoding="utf-8") as g:
+                for line in open(src, encoding="utf-8"):
+                    c = json.loads(line)
+                    c["op"] = "trace_multi"
+                    g.write(json.dumps(c, ensure_ascii=False) + "\n")
+            K.account(ctx, cmds, nontrivial)
+            K.run_exec(ctx, cmds, obs)
+            K.run_judge(ctx, "J_Trace", fmt, obs, f"c08trace_{fmt}_judge", shards=4 if ctx.tier == "thorough" else 2)
+        return run
+    K.parallel([trace(f) for f in K.FORMATS])
     # negative control (vacuity guard): with the pinned tree's reset_to the model must violate the invariant
     neg = ("SPECIFICATION Spec\n" + consts(MAXLEN=2, RESET_CLEARS="FALSE") + "INVARIANT HistoryIndependent\nCHECK_DEADLOCK FALSE\n")
     out, st = K.tlc("MC_C08", neg, ctx.rundir, "c08_negative_control", ctx.env("ascii"), 2, K.JAVA_OPTS_MC, 600)
@@ -246,6 +262,18 @@ def garbage_plan(K, ctx, prop):
             K.account(ctx, cmds, nontrivial)
             K.run_exec(ctx, cmds, obs)
             K.run_judge(ctx, "J_Garbage", fmt, obs, f"garbage_{fmt}_judge", shards=6 if not quick else 3, env_extra=env)
+            if prop == "C04":
+                # M1 event traces (hooks) on a quarter of the strings: cursor, slots and every error cursor against the model
+                tcmds = os.path.join(ctx.rundir, f"garbagetrace_{fmt}.cmds.ndjson")
+                tobs = os.path.join(ctx.rundir, f"garbagetrace_{fmt}.obs.ndjson")
+                with open(tcmds, "w", encoding="utf-8") as g:
+                    for i, line in enumerate(open(cmds, encoding="utf-8")):
+                        c = json.loads(line)
+                        if i % 4 == ctx.seed % 4 and c["op"] == "parse_any":
+                            g.write(json.dumps({"op": "trace_multi", "fmt": fmt, "inputs": [c["s"]]}, ensure_ascii=False) + "\n")
+                K.account(ctx, tcmds, lambda c: True)
+                K.run_exec(ctx, tcmds, tobs)
+                K.run_judge(ctx, "J_Trace", fmt, tobs, f"garbagetrace_{fmt}_judge", shards=3 if quick else 6)
         return run
     K.parallel([one(f) for f in K.FORMATS])
     ctx.exhaustive = False
